@@ -53,6 +53,16 @@ func hasMergeKey(v any) bool {
 	return false
 }
 
+// yamlEquivalents: hand-written YAML texts and the JSON text of the same document.
+var yamlEquivalents = [][2]string{
+	{"a: |\n  x\n", `{"a":"x\n"}`}, {"a: |\n  x", `{"a":"x"}`}, {"a: |-\n  x\n", `{"a":"x"}`}, {"a: |-\n  x", `{"a":"x"}`}, {"a: |+\n  x\n\n", `{"a":"x\n\n"}`}, {"a: |+\n  x", `{"a":"x"}`},
+	{"a: >\n  x\n  y\n", `{"a":"x y\n"}`}, {"a: >\n  x\n  y", `{"a":"x y"}`}, {"a: >-\n  x\n  y\n", `{"a":"x y"}`}, {"- |\n  x\n- z\n", `["x\n","z"]`}, {"- |\n  x", `["x"]`},
+	{"a: |\n  l1\n  l2\nb: 1\n", `{"a":"l1\nl2\n","b":1}`}, {"a: |2\n   x\n", `{"a":" x\n"}`}, {"a: \"x\"", `{"a":"x"}`}, {"a: 'x'", `{"a":"x"}`}, {"a: x", `{"a":"x"}`}, {"a: x # c", `{"a":"x"}`},
+	{"# c\na: 1", `{"a":1}`}, {"---\na: 1", `{"a":1}`}, {"a: 1\n...", `{"a":1}`}, {"a: [1, 2]", `{"a":[1,2]}`}, {"a:\n- 1\n- 2", `{"a":[1,2]}`}, {"a:\n  - 1\n  - 2", `{"a":[1,2]}`}, {"{a: 1, b: [x, z]}", `{"a":1,"b":["x","z"]}`},
+	{"a: {}\nb: []", `{"a":{},"b":[]}`}, {"a:", `{"a":null}`}, {"a: ~", `{"a":null}`}, {"- a\n- - b\n  - c", `["a",["b","c"]]`}, {"a: \"l1\\nl2\"", `{"a":"l1\nl2"}`}, {"a: 'it''s'", `{"a":"it's"}`},
+	{"? a\n: 1", `{"a":1}`}, {"a:   1   ", `{"a":1}`}, {"\"a b\": 1", `{"a b":1}`}, {"a: 1.0", `{"a":1}`}, {"a: 1e3", `{"a":1000}`}, {"a: -0.5", `{"a":-0.5}`}, {"x", `"x"`}, {"1", `1`}, {"[]", `[]`}, {"- 1", `[1]`},
+}
+
 func c16Doc(r *gen.RNG, i int) any {
 	prof := gen.PDefault.With(func(p *gen.Profile) {
 		p.MaxDepth = 3
@@ -180,7 +190,7 @@ func init() {
 		Rule: "documents over a table of ~190 hostile strings (every YAML 1.1 spelling of booleans/null, number-like, dates, indicator characters, quotes, whitespace, control characters, NEL/LS/PS/BOM, multi-line, non-ASCII, non-BMP) used as values AND keys, integral and fractional numbers incl. 2^31, 2^53+-1, 2^63, 2^64, empty containers everywhere; " +
 			"each document is written as YAML by an independent emitter in four styles and must read equal to its JSON form (reference canon, jd Equals both ways, empty diff); jd's Yaml()/Json() output must read back equal; CLI translations and -yaml diff/patch must preserve content; " +
 			"non-trivial = every document; distinct = distinct JSON texts",
-		Floors: map[string]int{"yaml_roundtrip_ok": 15000, "json_roundtrip_ok": 15000, "emitter_style:block/plain-when-safe": 15000, "hostile_string_as_key": 5000, "cli_translations": 300, "cli_yaml_diff_patch": 100, "cli_carriers_under_loose_flags": 100, "literal_block_scalars_read": 300, "integer_literals": 20},
+		Floors: map[string]int{"yaml_roundtrip_ok": 15000, "json_roundtrip_ok": 15000, "emitter_style:block/plain-when-safe": 15000, "hostile_string_as_key": 5000, "cli_translations": 300, "cli_yaml_diff_patch": 100, "cli_carriers_under_loose_flags": 100, "literal_block_scalars_read": 300, "hand_written_yaml_documents": 30, "integer_literals": 20},
 		Assumptions: []string{
 			"JSON documents with string keys only; YAML features with no JSON counterpart (tags, non-string keys, anchors) are outside the property",
 			"the YAML side of (i) comes from the harness's own emitter (ref.YamlEmit), never from yaml.v2's writer; reading JSON text through the YAML reader is not part of the property",
@@ -267,6 +277,29 @@ func init() {
 				c.Feature("hostile_string_as_key")
 			}
 			c16Carrier(c, v)
+		},
+	})
+	p.Strata = append(p.Strata, mon.Stratum{
+		Name:       "hand-written-yaml",
+		N:          n(len(yamlEquivalents)),
+		Exhaustive: always,
+		Run: func(c *mon.Ctx, i int) {
+			// YAML as people and other tools write it (block scalars with each chomping indicator, with and
+			// without a final line break, flow and block collections, comments, document markers) next to the
+			// JSON text of the same document
+			e := yamlEquivalents[i]
+			c.Input("yaml", e[0])
+			c.Input("json", e[1])
+			c.Feature("hand_written_yaml_documents")
+			c.Nontrivial("hw" + e[0])
+			Y, err := jd.ReadYamlString(e[0])
+			if err != nil {
+				c.Violation("ReadYamlString rejects a plain YAML document: "+err.Error(), nil)
+				return
+			}
+			if got, want := Plain(Y), ref.MustJSON(e[1]); !ref.Eq(got, want, ref.List) || !Y.Equals(ReadJ(e[1])) {
+				c.Violation("the document read from YAML differs from the same document read from JSON", map[string]any{"yaml_read_as": ref.ToJSON(got)})
+			}
 		},
 	})
 	p.Strata = append(p.Strata, mon.Stratum{
